@@ -37,7 +37,7 @@ def run_static(prop, seed, tier, replay):
     drift = [(rid, d) for rid, v, d in l1 if v == "drift"]
     cov = {
         "design_model_conformance": {
-            "model": "spec/Rewriter.tla predicts output tree (incl. temporary numbering), status, count, debug breakdown, refusals",
+            "model": "spec/Rewriter.tla predicts the output tree (incl. temporary numbering), status, count, debug breakdown, refusals and the full stream of traversal events recorded by the cfg-guarded hooks (next_ident with counter value, reset_counter, update_status with count-before and tag, block enter/leave/cancel, prologue)",
             "observations_predicted_exactly": sum(1 for _, v, _ in l1 if v == "ok"),
             "trivially_agreeing": sum(1 for _, v, _ in l1 if v == "ok0"),
             "model_drift": len(drift),
